@@ -17,7 +17,11 @@ where in STMTS' `let r = g(value);` is `let (value, r) = g(value);` and the stat
 (`value` is used nowhere else): the by-value `self` that the function returns is `PAT` of the referent after the
 closure has run; an early `return` inside STMTS does not mention `self`.
 
-Not translated: `err_into` (`From::from`), and the `ResultExt` impl.
+`err_into` is `self.map_err(From::from)`: the conversion between the error types is the ghost parameter `fromE`; the
+call of `map_err` is the translated `map_err` of this file (for `Result`: std's, contract `ParsedExt.resultMapErr`).
+A statement `g(value)?;` where `g` returns `Result<(), E>` in a function returning `Result<_, E>` (identical error
+types, so the `From::from` of `?` is the identity) is `if let Err(e) = g(value) { return Err(e); }`.
+The `ResultExt` impl is the subclass unit `resultext` (tools/unit_resultext.py).
 """
 from unitbase import *
 
@@ -39,9 +43,9 @@ class ParsedUnit(Unit):
     generic_arg = ""
     always_generic = True
     trust_exhaustive = True     # Rust checked the matches; Lean re-checks them when the file is built
-    skip = {
-        "err_into": "`self.map_err(From::from)`: the conversion is a trait method of the error types",
-    }
+    skip = {}
+    # `err_into`: `self.map_err(From::from)` -- the conversion of the error types is the ghost parameter `fromE`
+    extra_binders = {"err_into": "(fromE : ε → ε')"}
     rename = {"matches": "matches_", "from": "fromResult"}
     types = {
         "Parsed<T, E>": "ParsedR α ε", "Parsed<U, E>": "ParsedR β ε", "Parsed<T2, E>": "ParsedR β ε",
@@ -58,13 +62,28 @@ class ParsedUnit(Unit):
 
     def __init__(self):
         super().__init__()
-        self.consts = {"Fallthrough": ("ParsedR.fallthrough", None)}
+        self.consts = {"Fallthrough": ("ParsedR.fallthrough", None), "From::from": ("fromE", "impl FnOnce(E) -> E2")}
 
         def res(em, e, env, hint):
             c = em.cexpr(e[2][0], env)
             return Code(f"(ParsedR.res {paren(c.val)})", hint, c.pre)
 
         self.functions = {"Res": res}
+
+        def map_err_parsed(em, c, e, env, hint):
+            # `self.map_err(f)` inside the impl: the translated `map_err` of this file
+            a = em.cexpr(e[3][0], env, "impl FnOnce(E) -> E2")
+            t = env.fresh()
+            return Code(t, "Parsed<T, E2>", c.pre + a.pre + [f"let {t} ← mapErr (β := β) {paren(c.val)} {paren(a.val)}"])
+
+        def map_err_result(em, c, e, env, hint):
+            # `Result::map_err` of std: contract `ParsedExt.resultMapErr`
+            a = em.cexpr(e[3][0], env, "impl FnOnce(E) -> E2")
+            return Code(f"(ParsedExt.resultMapErr {paren(c.val)} {paren(a.val)})", "Result<T, E2>", c.pre + a.pre)
+
+        self.value_methods = dict(self.value_methods)
+        self.value_methods[("Parsed<T, E>", "map_err")] = map_err_parsed
+        self.value_methods[("Result<T, E>", "map_err")] = map_err_result
 
         def untranslatable(em, e, env):
             raise TErr(e[3])
@@ -135,6 +154,21 @@ class ParsedUnit(Unit):
             return False
 
         out, calls = [], 0
+        stmts2 = []
+        for s_ in stmts:
+            # `g(value)?;` where `g` returns `Result<(), E>` and the function returns `Result<_, E>` (the same error
+            # type: the `From::from` of `?` is the identity) is `let r = g(value); if let Err(e) = r { return Err(e); }`
+            if (s_[0] == "expr" and s_[1][0] == "try" and s_[1][1][0] == "call" and s_[1][1][1][0] == "path"
+                    and len(s_[1][1][1][1]) == 1 and s_[1][1][1][1][0] in closures and s_[1][1][2] == arg
+                    and norm_ty(f.ret or "").startswith("Result<")
+                    and norm_ty(dict((p[0][1], p[1]) for p in f.params if p[0] != "self")[s_[1][1][1][1][0]]).replace(" ", "").endswith("->Result<(),E>")):
+                stmts2.append(("let", ("pbind", "try_r", False, False, None), None, s_[1][1], None))
+                stmts2.append(("expr", ("iflet", ("pts", ["Err"], [("pbind", "try_e", False, False, None)]), ("path", ["try_r"]),
+                                        ("block", [("expr", ("return", ("call", ("path", ["Err"]), [("path", ["try_e"])])), True)], None, False),
+                                        None), False))
+            else:
+                stmts2.append(s_)
+        stmts = stmts2
         for s_ in stmts:
             if (s_[0] == "let" and s_[1][0] == "pbind" and s_[3] is not None and s_[3][0] == "call" and s_[3][1][0] == "path"
                     and len(s_[3][1][1]) == 1 and s_[3][1][1][0] in closures and s_[3][2] == arg and s_[4] is None):
